@@ -315,4 +315,22 @@ PROPS = {
              level_note="partial: sync.Mutex, sync.WaitGroup, channels and the Go scheduler are trusted; 'Serve returns nil' is observed, "
                         "not proved. Trusted: Lean kernel; hooks (build tag verif) add schedule points only.",
              technique="Lean 4 proof (inductive invariant over an interleaving thread model) + forced-schedule correspondence through build-tag hooks"),
+    "C18": P("Pw.Props.C18",
+             ["Pw.Props.C18.inv_init", "Pw.Props.C18.inv_reset", "Pw.Props.C18.inv_take", "Pw.Props.C18.inv_run",
+              "Pw.Props.C18.C18_write_disjoint", "Pw.Props.C18.C18_never_overwritten", "Pw.Props.C18.C18_alloc_bound"],
+             [("heap", 2000, 200000), ("retain", 2000, 150000)], ["Reader", "Accessors"],
+             design_ref="§7 C18",
+             level_text="Lean theorems about a heap model of reader.Msg (arenas, window = (arena, offset, len, cap), reset as in "
+                        "reader.go): for EVERY history of message reads (any sizes: around the 4 KiB granule, chunks of skipped oversized "
+                        "messages, COPY data) and accessor calls, every zero-copy view handed out is disjoint from the memory written by "
+                        "every later read (C18_never_overwritten; inductive invariant: views lie in allocated arenas and, in the current "
+                        "arena, below the end of the current window) and reset never asks for more than max(size, 4096) bytes. Tie: "
+                        "pinned body of reset and of the accessors; the real buffer.Reader's (arena, len, cap) after every operation is "
+                        "compared with the model (arena identity from the slice's end address), views returned by GetBytes are "
+                        "re-checked; end to end, scripted callbacks RETAIN query texts, parameter values, passwords, user names and COPY "
+                        "payloads and compare them with private copies after later traffic incl. oversized (non-multiple-of-limit) "
+                        "messages, failed batches and COPY.",
+             level_note="Trusted: Lean kernel; Go slice/allocator semantics (a window never outlives its arena while referenced); the "
+                        "unsafe string view of GetString is the same memory as the byte view modelled here.",
+             technique="Lean 4 proof (inductive invariant over a heap model) + differential correspondence on the real reader's layout"),
 }
